@@ -97,6 +97,33 @@ def run(R):
                         "the other runnable tasks have added their requests", dcfg.fmt_path(p) if p else None)
             if p is None:
                 excluded.add(cls)
+        # a batch the task yielded itself (a batch is a future: the task waits for the whole batch) is scheduled like one of its items;
+        # the inline _compute() - which is flush() - is left to a batch that has no items (flushing it sends nothing)
+        btests = []
+        for x in dcfg.nodes:
+            if x.kind == "test":
+                k, s_, pos = q.atom_test(x.ast)
+                if k == "isinstance" and s_[0] == recv and s_[1].split(".")[-1] == "BatchBase":
+                    btests.append((x, "T" if pos else "F"))
+
+        def no_items_edge(e):
+            nd = dcfg.nodes[e.src]
+            if nd.kind != "test":
+                return False
+            k, s_, pos = q.atom_test(nd.ast)
+            # the edge on which the batch is known to hold NO requests
+            if k == "truth" and s_ == "%s.items" % recv:
+                return e.label == ("F" if pos else "T")
+            if k == "call" and s_ == "%s.is_empty" % recv:
+                return e.label == ("T" if pos else "F")
+            return False
+        starts_b = [e.dst for x, lab in btests for e in dcfg.out_edges(x.id, N) if e.label == lab]
+        pb = dcfg.find_path(starts_b, [n], N, keep_edge=lambda e: not no_items_edge(e), cut_nodes=[x for x in dcfg.nodes if x.kind == "loop"]) if btests else ["no test"]
+        R.check(pb is None, "C04.WHO-FLUSH", "%s:inline-batch" % drain.qualname, R.site(drain, c),
+                "a yielded batch that holds requests is scheduled, not computed inline",
+                "a batch object that a task yielded (to wait for the whole batch) reaches the inline _compute(), i.e. flush(), in the middle of the walk: it is "
+                "flushed before the tasks that have not started yet have added their requests - more flushes than the longest chain of dependent requests",
+                dcfg.fmt_path(pb) if isinstance(pb, list) and pb and not isinstance(pb[0], str) else None)
 
     def narrowed_targets(fi, call, tg, kind):
         if fi is drain and q.attr_call(call)[1] == "_compute":
